@@ -50,6 +50,27 @@ def gen_params(rng, tier):
         g = lambda s, n: [[d, w] for d, w in gen.gen_stream(rng, s, rng.randint(0, n), gate_rate=0.05)]  # noqa: E731
         return {"spec": spec, "spec2": spec2, "desc": desc, "depth": depth,
                 "sa": g(spec, 4) if rng.random() < 0.6 else [], "sb": g(spec2, 4) if rng.random() < 0.6 else []}
+    if rng.random() < 0.06:
+        # two Stacks over the same thresholds given in different orders (a Stack keeps them as given), alone or inside a
+        # Select / a Label: level i of one is not level i of the other
+        import copy
+
+        es = sorted(set(gen.dy(rng, -4, 4, 0.5) for _ in range(rng.randint(3, 5))))[:4]
+        while len(es) < 2:
+            es.append(es[-1] + 1.0)
+        st = {"k": "Stack", "q": [rng.choice(gen.NUM_COLS), None], "edges": es, "value": gen.gen_spec(rng, rng.randint(0, 1)), "nanflow": {"k": "Count"}}
+        st2 = copy.deepcopy(st)
+        perm = list(es)
+        while perm == es:
+            rng.shuffle(perm)
+        st2["edges"] = perm
+        wrap = rng.choice(["none", "select", "label"])
+        mk = {"none": lambda x: x, "select": lambda x: {"k": "Select", "q": [gen.BOOL_COL, None], "cut": x},
+              "label": lambda x: {"k": "Label", "pairs": {"a": x}}}[wrap]
+        g = lambda s, n: [[d, w] for d, w in gen.gen_stream(rng, s, rng.randint(0, n), gate_rate=0.05)]  # noqa: E731
+        spec = mk(st)
+        return {"spec": spec, "spec2": mk(st2), "desc": "Stack thresholds %r vs %r: permedges" % (es, perm), "depth": 0 if wrap == "none" else 1,
+                "sa": g(spec, 5) if rng.random() < 0.7 else [], "sb": []}
     for _ in range(50):
         # a fifth of the cases: binning containers nested in each other over arbitrary leaves (the content checks of the
         # sparse containers meet every leaf type, Bags of every range included)
@@ -67,7 +88,7 @@ def gen_params(rng, tier):
 def build(p):
     S = lambda k: [(r[0], r[1]) for r in p[k]]  # noqa: E731
     # a CentrallyBin with a repeated centre is only used empty: which of two equal centres a fill picks is not modelled
-    sb = [] if ("dupcenter" in p["desc"] or "tiny" in p["desc"]) else S("sb")   # (nor one whose edges moved by one float)
+    sb = [] if ("dupcenter" in p["desc"] or "tiny" in p["desc"] or "permedges" in p["desc"]) else S("sb")   # (nor one whose edges moved by one float)
     ops = [("new", "a", p["spec"]), ("fills", "a", S("sa")), ("new", "b", p["spec2"]), ("fills", "b", sb),
            ("snap", "a0", "a"), ("snap", "b0", "b")]
     expect = []
